@@ -8,7 +8,7 @@ THM_MODULES = ["Minicbor.Thm.C10"]
 P = "Minicbor.C10."
 REQUIRED = [P + n for n in """compat_refl step_compatible step_compatible_rev compat_not_transitive
 compat_decode_struct_partial compat_missing_mandatory compat_unknown_field_skipped compat_absent_optional_is_nil
-compat_counterexample_F5 compat_counterexample_K5 f5_benign_excludes k5_benign_excludes project_roundtrip""".split()]
+compat_counterexample_K5 k5_benign_excludes project_roundtrip""".split()]
 PACKAGES = ["dgen"]
 prepare = base.prepare
 RULE = ("dcompat <writer type> <value> <reader type>: chains of type versions produced by sequences of the documented compatible edits (add an optional "
@@ -18,7 +18,7 @@ RULE = ("dcompat <writer type> <value> <reader type>: chains of type versions pr
         "nested structs / enums / collections); every ordered pair of versions of a chain (both directions) x every generated value of the writer "
         "version.  Oracle: the documented projection computed by the Lean `project` (shared fields equal, reader-only optionals nil, writer-only fields "
         "ignored, unknown variant in an optional field None), position = length of the writer's encoding.  Recorded defects are recognised by the "
-        "model's hazard classification (F5: unknown index_only variant, K5: tagged reader-only optional at a gap of the writer's array) and only then.")
+        "model's hazard classification (K5: tagged reader-only optional at a gap of the writer's array) and only then; F5 (unknown index_only variant swallowing the sibling) was repaired in /repo (34b49ef) and is a violation again if it reappears.")
 ASSUMPTIONS = list(base.ASSUMPTIONS) + [
     "compatibility is checked for version pairs reachable by edit sequences that never re-use a retired index with another type; the documentation "
     "does not state that restriction, without it the promise is false (machine-checked: C10.compat_not_transitive)"]
@@ -48,7 +48,6 @@ def streams(rng, tier):
         if impl == want:
             return "ok" if impl == model else "corr"
         # the implementation breaks the documented promise on this input
-        if impl == model and sw[4] == "f5": return ("known", "F5")
         if impl == model and sw[4] == "k5": return ("known", "K5")
         return "violation"
     st = Stream("derive-compat", "dgen", [r[0] for r in rows], model_ops=[r[1] for r in rows], spec_ops=[r[2] for r in rows], judge=judge, rule=RULE)
